@@ -2,6 +2,7 @@
 package checks
 
 import (
+	"bytes"
 	"encoding/hex"
 	"fmt"
 	"math/rand"
@@ -66,4 +67,28 @@ func maxInt(a, b int) int {
 		return a
 	}
 	return b
+}
+
+// retention oracle: a result handed out by the code under test must not change when the code is called again
+// (results that alias a pooled / package-level buffer pass every call-by-call comparison). Each check keeps the
+// previous result of a family together with a private copy and compares them at the next call in the same process.
+type retained struct {
+	got, want []byte
+	desc      string
+}
+
+var retainedBy = map[string]*retained{}
+
+// retainCheck returns a description of the earlier result that has changed, or "". Then it remembers (got, desc).
+func retainCheck(family string, got []byte, desc string) string {
+	msg := ""
+	if r := retainedBy[family]; r != nil && !bytes.Equal(r.got, r.want) {
+		msg = fmt.Sprintf("an earlier result (%s) was %x when it was returned and reads %x after a later call (%s)", r.desc, clip(r.want, 48), clip(r.got, 48), desc)
+	}
+	if got == nil {
+		delete(retainedBy, family)
+	} else {
+		retainedBy[family] = &retained{got: got, want: append([]byte(nil), got...), desc: desc}
+	}
+	return msg
 }
